@@ -80,7 +80,8 @@ func (w *World) replayInfo(n *Node, op string) map[string]interface{} {
 
 func (w *World) oracles(n *Node, op string) {
 	s := n.lastSnap
-	if s == nil {
+	if s == nil || !s.Loaded {
+		// a node whose load failed is not a ledger: it refuses every operation (checked by the sync section)
 		return
 	}
 	live := liveMap(s)
